@@ -155,7 +155,9 @@ def run (toks : List String) : String :=
     else
       let w := (kv obs "wait").getD "?"
       if w == "none" then
-        -- the daemon was dropped without wait(): only the teardown clause applies
+        -- the daemon was dropped without wait(): the teardown clause applies, and dropping the daemon must shut the
+        -- connection down: a daemon thread still blocked in recvmsg (`B`) after the drop was not woken
+        if snaps.any (fun sn => sn.startsWith "D:B") then fail "drop-did-not-shut-connection" else
         match checkDrop ex obs with
         | some why => fail why
         | none => "spec-ok"
